@@ -1,5 +1,6 @@
 import Kdf.Model.Err
 import Kdf.Model.Status
+import Kdf.Model.ErrFlow
 import Kdf.Lemmas.Err
 import Kdf.Lemmas.ErrVadd
 /-!
@@ -96,5 +97,191 @@ example : text (vadd (vadd (init 16) [105, 110, 110, 101, 114] true) [111, 117, 
     = [111, 117, 116, 58, 32, 105, 110, 110, 101, 114] := by decide
 example : text (vadd (vadd (init 8) [97, 98, 99, 100, 101] true) [120, 121, 122] false)
     = [60, 32, 97, 98, 99, 100, 101] := by decide
+
+/-! ## The message discipline above the buffer (`Kdf.Model.ErrFlow`) -/
+section Flow
+open Kdf.Model.ErrFlow
+
+/-- what the property asks of a call that was entered with an empty error string:
+the string is empty exactly when the status is OK -/
+def Disciplined (r : Res) : Prop := r.1 = 0 ↔ r.2 = []
+
+theorem setError_disciplined (c : Chain) (st : Int) (m : String) (h : st = 0 → c = []) :
+    Disciplined (setError c st m) := by
+  unfold Disciplined setError
+  by_cases hs : st = 0
+  · simp [hs, h hs]
+  · simp [hs]
+
+theorem part_disciplined (p : Part) (h : p.wf) : Disciplined (p.apply []) := by
+  unfold Disciplined Part.apply
+  obtain ⟨h0, h1⟩ := h
+  by_cases hs : p.st = 0
+  · simp [hs, h0 hs]
+  · simp [hs, h1 hs]
+
+/-- `direct_read_ok` is a tolerated failure: it never adds text to the error
+string; when the read fails the string is empty afterwards. -/
+theorem directReadOk_tolerates (caps : Bool) (rd : Part) (hw : rd.wf) (c : Chain) :
+    (directReadOk caps rd c).2 = c ∨ ((directReadOk caps rd c).1 = false ∧ (directReadOk caps rd c).2 = []) := by
+  unfold directReadOk Part.apply clearError
+  obtain ⟨h0, _⟩ := hw
+  cases caps <;> by_cases hs : rd.st = 0 <;> simp [hs, h0]
+
+/-- entered with an empty string (as from every caller right after a successful
+step), it leaves the string as it was before the call: empty -/
+theorem directReadOk_empty (caps : Bool) (rd : Part) (hw : rd.wf) : (directReadOk caps rd []).2 = [] := by
+  rcases directReadOk_tolerates caps rd hw [] with h | h
+  · exact h
+  · exact h.2
+
+/-- The stories `get_linux_pgtroot` (aarch64, riscv64) can tell, entered with an
+empty string: success with an empty string, the failed symbol look-up, or the
+failed number look-up — never the text of the tolerated direct read. -/
+theorem pgtroot_story (numName : String) (swapper rd num : Part) (caps : Bool)
+    (hs : swapper.wf) (hr : rd.wf) (hn : num.wf) :
+    let r := getLinuxPgtroot numName swapper caps rd num []
+    r = (0, []) ∨
+    (swapper.st ≠ 0 ∧ r = (swapper.st, ["Cannot determine page table virtual address",
+        "Cannot resolve \"swapper_pg_dir\""] ++ swapper.links)) ∨
+    (num.st ≠ 0 ∧ r = (num.st, ["Cannot determine " ++ numName,
+        "Cannot get number(" ++ numName ++ ")"] ++ num.links)) := by
+  intro r
+  show _ ∨ _ ∨ _
+  simp only [r]
+  unfold getLinuxPgtroot getSymval getNumber directReadOk setError Part.apply clearError
+  obtain ⟨hs0, _⟩ := hs
+  obtain ⟨hr0, _⟩ := hr
+  obtain ⟨hn0, _⟩ := hn
+  by_cases h1 : swapper.st = 0
+  · by_cases h2 : rd.st = 0 <;> by_cases h3 : num.st = 0 <;> cases caps <;> simp [h1, h2, h3, hs0, hr0, hn0]
+  · simp [h1]
+
+theorem pgtroot_disciplined (numName : String) (swapper rd num : Part) (caps : Bool)
+    (hs : swapper.wf) (hr : rd.wf) (hn : num.wf) :
+    Disciplined (getLinuxPgtroot numName swapper caps rd num []) := by
+  rcases pgtroot_story numName swapper rd num caps hs hr hn with h | ⟨h1, h⟩ | ⟨h1, h⟩
+  · rw [h]; simp [Disciplined]
+  · rw [h]; simp [Disciplined, h1]
+  · rw [h]; simp [Disciplined, h1]
+
+/-- `map_linux_aarch64` / `map_linux_riscv64` as a whole: a successful set-up ends
+with an empty string whatever the optional linear-map search did, a failing one
+with a non-empty string. -/
+theorem mapLinuxPgtroot_disciplined (rootOpt : Bool) (numName : String) (swapper rd num physmaps linear : Part)
+    (caps : Bool) (hs : swapper.wf) (hr : rd.wf) (hn : num.wf) (hp : physmaps.wf) :
+    Disciplined (mapLinuxPgtroot rootOpt numName swapper caps rd num physmaps linear []) := by
+  have hroot := pgtroot_disciplined numName swapper rd num caps hs hr hn
+  unfold mapLinuxPgtroot
+  cases rootOpt
+  · simp only [Bool.false_eq_true, ↓reduceIte]
+    by_cases h : (getLinuxPgtroot numName swapper caps rd num []).1 = 0
+    · have he : (getLinuxPgtroot numName swapper caps rd num []).2 = [] := hroot.mp h
+      simp only [h, he, ne_eq, not_true_eq_false, ↓reduceIte]
+      have := part_disciplined physmaps hp
+      by_cases h2 : (physmaps.apply []).1 = 0
+      · simp [h2, Disciplined, clearError]
+      · simp only [h2, not_false_eq_true, ↓reduceIte]; exact this
+    · simp only [ne_eq, h, not_false_eq_true, ↓reduceIte]; exact hroot
+  · simp only [↓reduceIte, ne_eq, not_true_eq_false]
+    have := part_disciplined physmaps hp
+    by_cases h2 : (physmaps.apply []).1 = 0
+    · simp [h2, Disciplined, clearError]
+    · simp only [h2, not_false_eq_true, ↓reduceIte]; exact this
+
+/-- `map_linux_arm`, entered with an empty string: a successful set-up ends with
+an empty string — whether or not `_stext` could be resolved, whether or not the
+root page table could be read directly, whatever `set_linux_direct` did — and a
+failing one with a non-empty string. -/
+theorem mapLinuxArm_disciplined (rootKnown capsOk physBase : Bool) (swapper stext rd mapDirect linDirect : Part)
+    (hs : swapper.wf) (hx : stext.wf) (hr : rd.wf) (hm : mapDirect.wf) (hl : linDirect.wf) :
+    Disciplined (mapLinuxArm rootKnown swapper stext capsOk rd physBase mapDirect linDirect []) := by
+  unfold mapLinuxArm getSymval directReadOk setError Part.apply clearError Disciplined
+  obtain ⟨hs0, hs1⟩ := hs
+  obtain ⟨hx0, hx1⟩ := hx
+  obtain ⟨hr0, hr1⟩ := hr
+  obtain ⟨hm0, hm1⟩ := hm
+  obtain ⟨hl0, hl1⟩ := hl
+  by_cases h1 : swapper.st = 0 <;> by_cases h2 : stext.st = 0 <;> by_cases h3 : rd.st = 0 <;>
+    by_cases h4 : mapDirect.st = 0 <;> by_cases h5 : linDirect.st = 0 <;>
+    cases rootKnown <;> cases capsOk <;> cases physBase <;>
+    simp [h1, h2, h3, h4, h5, hs0, hx0, hr0, hm0, hl0, hm1]
+
+/-- … and its failing chain tells one story: every link is a message of the
+set-up itself or comes from the failed look-up / allocation it reports — never
+from the tolerated direct read of the root page table or from the optional
+linear mapping. -/
+theorem mapLinuxArm_story (rootKnown capsOk physBase : Bool) (swapper stext rd mapDirect linDirect : Part)
+    (hs : swapper.wf) (hx : stext.wf) (hr : rd.wf) (hm : mapDirect.wf) (hl : linDirect.wf) :
+    ∀ l ∈ (mapLinuxArm rootKnown swapper stext capsOk rd physBase mapDirect linDirect []).2,
+      l ∈ ["Cannot determine page table virtual address", "Cannot resolve \"swapper_pg_dir\"",
+           "Cannot determine PAGE_BASE", "Cannot resolve \"_stext\""] ∨
+      l ∈ swapper.links ∨ l ∈ stext.links ∨ l ∈ mapDirect.links := by
+  unfold mapLinuxArm getSymval directReadOk setError Part.apply clearError
+  obtain ⟨hs0, hs1⟩ := hs
+  obtain ⟨hx0, hx1⟩ := hx
+  obtain ⟨hr0, hr1⟩ := hr
+  obtain ⟨hm0, hm1⟩ := hm
+  obtain ⟨hl0, hl1⟩ := hl
+  intro l
+  by_cases h1 : swapper.st = 0 <;> by_cases h2 : stext.st = 0 <;> by_cases h3 : rd.st = 0 <;>
+    by_cases h4 : mapDirect.st = 0 <;> by_cases h5 : linDirect.st = 0 <;>
+    cases rootKnown <;> cases capsOk <;> cases physBase <;>
+    simp (config := { contextual := true }) [or_imp, h1, h2, h3, h4, h5, hs0, hx0, hr0, hm0, hl0]
+
+theorem nodata_ne_ok : ((0 : Int) = kdumpNODATA) = False := by decide
+
+/-- `update_xen_extra_ver`, entered with an empty string -/
+theorem xenver_disciplined (attrSet : Bool) (reval rd setAttr : Part)
+    (hv : reval.wf) (hr : rd.wf) (hs : setAttr.wf) :
+    Disciplined (updateXenExtraVer attrSet reval rd setAttr []) := by
+  unfold updateXenExtraVer setError Part.apply clearError Disciplined
+  obtain ⟨hv0, hv1⟩ := hv
+  obtain ⟨hr0, hr1⟩ := hr
+  obtain ⟨hs0, hs1⟩ := hs
+  cases attrSet
+  · simp
+  · by_cases h1 : reval.st = 0
+    · by_cases h2 : rd.st = kdumpNODATA
+      · simp [h1, h2]
+      · by_cases h3 : rd.st = 0
+        · by_cases h4 : setAttr.st = 0
+          · simp [h1, h3, h4, hv0, hr0, hs0, nodata_ne_ok]
+          · simp [h1, h3, h4, hv0, hr0, nodata_ne_ok]
+        · simp [h1, h2, h3, hv0]
+    · simp [h1]
+
+/-- missing data is tolerated there: the call succeeds and the string is as it
+was before the call (empty), whatever the failed read had put into it -/
+theorem xenver_tolerates (reval rd setAttr : Part) (h0 : reval.st = 0) (h : rd.st = kdumpNODATA) :
+    updateXenExtraVer true reval rd setAttr [] = (0, []) := by
+  unfold updateXenExtraVer setError Part.apply clearError
+  simp [h0, h]
+
+/-- register reads and writes below `kdump_get_attr` / `kdump_set_attr` -/
+theorem derived_disciplined (b : Blob) (key : String) (c : Chain) :
+    Disciplined (getDerived b key c) ∧ Disciplined (setDerived b key c) := by
+  cases b <;> simp [Disciplined, getDerived, setDerived, derivedAccess, getAttrBlob, setError, clearError, kdumpNODATA, kdumpCORRUPT,
+    Kdf.Gen.Status.kdumpCodes]
+
+/-- a failing access names its cause: the innermost link says which blob is missing -/
+theorem derived_names_cause (b : Blob) (key : String) (c : Chain) (h : b = .cleared ∨ b = .absent) :
+    setDerived b key c = (kdumpNODATA, [key ++ " raw attribute not found"]) ∧
+    getDerived b key c = (kdumpNODATA, ["Value cannot be revalidated", key ++ " raw attribute not found"]) := by
+  rcases h with h | h <;> subst h <;>
+    simp [getDerived, setDerived, derivedAccess, getAttrBlob, setError, clearError, kdumpNODATA, Kdf.Gen.Status.kdumpCodes]
+
+
+/-! ### Non-vacuity: concrete runs of the modelled functions -/
+example : mapLinuxArm false ⟨0, []⟩ ⟨5, ["no sym _stext"]⟩ true ⟨2, ["page not available"]⟩ true Part.ok Part.ok []
+    = (5, ["Cannot determine PAGE_BASE"]) := by decide
+example : mapLinuxArm true ⟨0, []⟩ ⟨5, ["no sym _stext"]⟩ true Part.ok false Part.ok Part.ok [] = (0, []) := by decide
+example : getLinuxPgtroot "kimage_voffset" ⟨0, []⟩ true ⟨2, ["page not available"]⟩ ⟨5, ["no num kimage_voffset"]⟩ []
+    = (5, ["Cannot determine kimage_voffset", "Cannot get number(kimage_voffset)", "no num kimage_voffset"]) := by decide
+example : updateXenExtraVer true Part.ok ⟨7, ["Cannot read page data at 8192"]⟩ Part.ok []
+    = (7, ["Cannot read Xen extra version", "Cannot read page data at 8192"]) := by decide
+example : (⟨2, ["page not available"]⟩ : Part).wf := by simp [Part.wf]
+
+end Flow
 
 end Kdf.Props.C16
